@@ -83,7 +83,7 @@ def g_lstmt(g_info, s, span):
 def lcase_term(c07, case, kind, out):
     src, place, prefs = case["src"], case["place"], case["prefs"]
     stmts = W.parse_imports(src)
-    used, exported, _ = W.used_and_exported(src)
+    used, exported, _ = W.used_and_exported(src, rope_view=True)
     lines, spans, fil, sep = layout_facts(src)
     assert len(spans) == len(stmts)
     lay = c07.lay_term(place, [s["info"] for s in stmts])
